@@ -194,7 +194,7 @@ def _run_job(job, binpath, outdir, idx):
     try:
         p = subprocess.run(cmd, stdout=subprocess.PIPE, stderr=subprocess.STDOUT, timeout=job.timeout, env=env, cwd=outdir)
         job.returncode = p.returncode
-        job.output = p.stdout.decode("utf-8", "replace")[-8000:]
+        job.output = p.stdout.decode("utf-8", "replace")[-60000:]
     except subprocess.TimeoutExpired as e:
         job.status = "timeout"
         job.output = (e.stdout or b"").decode("utf-8", "replace")[-8000:]
